@@ -266,15 +266,16 @@ Expected(p) ==
 (***************************************************************************)
 (* Programs.                                                                *)
 (***************************************************************************)
-Bodies == UNION {[1..n -> Stmts] : n \in 0..MaxLen}
-Programs == {[kind |-> k, start |-> s, rej |-> r, second |-> b, body |-> body] :
-               k \in Kinds, s \in Starts \cup {"-"}, r \in Rejs, b \in Seconds, body \in Bodies}
 Wf(p) == /\ (p.kind = "task") = (p.start # "-")
          /\ (p.second # "none") => HasShared(p.body)
 
-Init == /\ prog \in {p \in Programs : Wf(p)}
-        /\ out = <<>>
-        /\ phase = "new"
+\* one initial state per program (enumerated, never built as one set)
+Init == \E k \in Kinds, s \in Starts \cup {"-"}, r \in Rejs, b \in Seconds, n \in 0..MaxLen :
+          \E body \in [1..n -> Stmts] :
+             /\ prog = [kind |-> k, start |-> s, rej |-> r, second |-> b, body |-> body]
+             /\ Wf(prog)
+             /\ out = <<>>
+             /\ phase = "new"
 Run == /\ phase = "new"
        /\ phase' = "done"
        /\ out' = Expected(prog)
